@@ -164,6 +164,50 @@ func cmdStress(args []string) {
 		}
 		emc.Emit(map[string]interface{}{"op": "cellend", "id": 100 + k})
 	}
+	// ---- first use of a FRESH word list under concurrency: anything the list builds lazily is built by all goroutines at once ----
+	for k := 0; k < 8; k++ {
+		fw := []string{}
+		for j := 0; j < 6; j++ {
+			fw = append(fw, fmt.Sprintf("w%dx%c%c", k, rune('a'+j), rune('n'+j)))
+		}
+		fwl, err := spg.NewWordList(fw)
+		if err != nil {
+			fatal("%v", err)
+		}
+		spec := WLSpec{Words: CPsList(fw), Len: 4, Cap: []string{"all", "random", "first", "one"}[k%4], Sep: "char", SepChar: o("-")}
+		spec.norm()
+		fr := spg.NewWLRecipe(spec.Len, fwl)
+		rr, _, err := spec.Build(fwl)
+		if err != nil {
+			fatal("%v", err)
+		}
+		fr.Capitalize, fr.SeparatorChar, fr.SeparatorFunc = rr.Capitalize, rr.SeparatorChar, rr.SeparatorFunc
+		results := make([][]GenRes, *G)
+		start := make(chan struct{})
+		var fwg sync.WaitGroup
+		for g := 0; g < *G; g++ {
+			fwg.Add(1)
+			go func(g int) {
+				defer fwg.Done()
+				<-start
+				for i := 0; i < 4; i++ {
+					p, err := fr.Generate()
+					results[g] = append(results[g], ResOf(p, err, nil))
+				}
+			}(g)
+		}
+		close(start)
+		fwg.Wait()
+		sc := Scenario{Kind: "wl", WL: &spec, Mode: "paths", Paths: 0, Tag: "stress-first-use-wl"}
+		evs := wlCellEvents(200+k, sc, 1, fr, fwl)
+		emw.Emit(evs[0])
+		for g := range results {
+			for _, r := range results[g] {
+				emw.Emit(LeafEv{Op: "wleaf", D: [][2]int{}, Det: -1, Res: r, PathW: []int{}, Conc: 1, Reads: 1})
+			}
+		}
+		emw.Emit(map[string]interface{}{"op": "wcellend", "id": 200 + k})
+	}
 	// ---- shared word list, wordlist recipes and separator functions ----
 	words := []string{"one", "two", "three", "kettő", "ice-cream", "zebra", "größe"}
 	sepReq := CharSpec{Len: 2, Allow: int(spg.Digits | spg.Symbols), Require: int(spg.Digits)}
